@@ -343,11 +343,25 @@ def check(ctx):
         ctx.ob("C05.R5", st, "the outcome carries mh_step's info and state unchanged",
                okret, detail=short(rt) if rt else "no return")
     ctx.require_min("kernels calling mh_step", callers, 3)
+    # `self.model` above is the interface the kernel was GIVEN: the builder binds its own
+    # interface only to kernels that have none
+    bld = repo.func("liesel.goose.builder.EngineBuilder.build")
+    rb = evaluate(repo, bld)
+    binds = [(t, cond) for t, _, cond in rb.calls if t[0] == "call" and t[1][0] == "a"
+             and t[1][2] == "set_model" and t[1][1][0] == "iter"]
+    bad_b = [short(t, 80) for t, cond in binds
+             if not any(a == ("call", ("a", t[1][1], "has_model"), (), ()) and not p
+                        for a, p in cond)]
+    ctx.ob("C05.R5", bld, "EngineBuilder.build binds the builder's model interface only to "
+                          "kernels / generators that have none (`if not k.has_model()`): the "
+                          "density in the ratio is that of the model the kernel was given",
+           len(binds) >= 1 and not bad_b, detail=f"{len(binds)} binding(s); unguarded: {bad_b}",
+           stmt=f"unguarded set_model {bad_b}")
 
     # ---- shared mechanisms: the neighbour's rules run as obligations of this property
     ctx.include("C03", "C05.R6", only=['C03.R4'])
-    ctx.include("C06", "C05.R6", only=['C06.R2'])
-    ctx.rule("R6", "shared mechanisms, run as obligations of this property: the log-density mh_step compares is the model's log-probability as it is (NaN and -inf reach the guard unchanged) (C03.R4); an undefined IWLS backward density must reach mh_step as NaN (C06.R2).")
+    ctx.include("C06", "C05.R6", only=['C06.R2', 'C06.R4'])
+    ctx.rule("R6", "shared mechanisms, run as obligations of this property: the proposal and the correction handed to mh_step are the two parts of ONE proposal (C06.R4); the log-density mh_step compares is the model's log-probability as it is (NaN and -inf reach the guard unchanged) (C03.R4); an undefined IWLS backward density must reach mh_step as NaN (C06.R2).")
 
 
 def contains_exp_of(t, inner):
